@@ -191,4 +191,18 @@ def cpJudge (caseLine implLine : String) : String :=
         else "ok"
   | _, _ => "malformed"
 
+/-- engine `sinkfault` (C15/C11): a sink whose state file was broken at some point.  Spec: a Close
+    that returns nil means the snapshot is listed and opens with the bytes written; a Close that
+    returns an error, or a Cancel, leaves nothing listed for that sink. -/
+def sfJudge (caseLine implLine : String) : String :=
+  let pc : P (Bool × Nat × Nat × Bool) := do kw "SF"; let c ← nat; let w ← nat; let n ← nat; let e ← nat; pure (c ≠ 0, w, n, e ≠ 0)
+  let pi : P (Bool × Nat × Nat × Nat) := do let a0 ← nat; let a := (a0 != 0); let l ← nat; let o ← nat; let t ← nat; pure (a, l, o, t)
+  match runP pc caseLine, runP pi implLine with
+  | some (cancel, _, _, _), some (nilResult, listed, opens, _) =>
+      if cancel then (if listed ≠ 0 then "bad cancelled-snapshot-is-listed" else "ok")
+      else if nilResult && (listed = 0 || opens = 0) then "bad close-returned-nil-but-the-snapshot-is-not-there"
+      else if !nilResult && listed ≠ 0 then "bad close-failed-but-the-snapshot-is-listed"
+      else "ok"
+  | _, _ => "malformed"
+
 end Drv
